@@ -907,7 +907,7 @@ func r11_5(c *Ctx, t *tables) {
 						if st, ok := in2.(*ssa.Store); ok {
 							if _, ok := isFieldAddr(st.Addr, fld); ok {
 								any = true
-								if _, isMake := st.Val.(*ssa.MakeMap); !isMake {
+								if !nonNilMapValue(st.Val) {
 									allMade = false
 								}
 							}
@@ -1246,4 +1246,70 @@ func phiStartsAt(p *ssa.Phi, min int64) bool {
 		return false
 	}
 	return true
+}
+
+
+// nonNilMapValue: v is a freshly made map, or a clone of a package-level map that is itself made by its initialiser
+// (maps.Clone preserves nil-ness, so the source must be known non-nil).
+func nonNilMapValue(v ssa.Value) bool {
+	if _, ok := v.(*ssa.MakeMap); ok {
+		return true
+	}
+	call, ok := v.(*ssa.Call)
+	if !ok {
+		return false
+	}
+	cal := call.Call.StaticCallee()
+	if cal == nil || !extFuncIs(cal, "maps", "Clone") || len(call.Call.Args) != 1 {
+		return false
+	}
+	g := globalOf(call.Call.Args[0])
+	if g == nil {
+		// a call of a library function that returns a made map
+		if c2, ok := call.Call.Args[0].(*ssa.Call); ok {
+			return returnsMadeMap(c2.Call.StaticCallee(), 0)
+		}
+		return false
+	}
+	init := g.Pkg.Func("init")
+	if init == nil || !globalWrittenOnlyInInit(g) {
+		return false
+	}
+	made := false
+	allInstrs(init, func(_ *ssa.BasicBlock, _ int, in ssa.Instruction) {
+		if st, ok := in.(*ssa.Store); ok && st.Addr == ssa.Value(g) {
+			switch x := st.Val.(type) {
+			case *ssa.MakeMap:
+				made = true
+			case *ssa.Call:
+				made = returnsMadeMap(x.Call.StaticCallee(), 0)
+			}
+		}
+	})
+	return made
+}
+
+// returnsMadeMap: every return of f yields a map made in f (or by a callee that does), to depth 2.
+func returnsMadeMap(f *ssa.Function, depth int) bool {
+	if f == nil || f.Blocks == nil || depth > 2 {
+		return false
+	}
+	ok, any := true, false
+	allInstrs(f, func(_ *ssa.BasicBlock, _ int, in ssa.Instruction) {
+		r, isRet := in.(*ssa.Return)
+		if !isRet || len(r.Results) != 1 {
+			return
+		}
+		any = true
+		switch x := r.Results[0].(type) {
+		case *ssa.MakeMap:
+		case *ssa.Call:
+			if !nonNilMapValue(x) && !returnsMadeMap(x.Call.StaticCallee(), depth+1) {
+				ok = false
+			}
+		default:
+			ok = false
+		}
+	})
+	return ok && any
 }
